@@ -175,6 +175,7 @@ static void stage_random(Run &R) {
     });
 }
 
+#ifndef VF_FUZZ
 int main(int argc, char **argv) {
     return std_main(argc, argv, "C17", {{"locals", stage_locals}, {"domains", stage_domains}, {"addresses", stage_addresses}, {"random", stage_random}},
         [](Run &R, const Case &c) -> std::optional<Failure> { int k = (int) c.geti("kind"); Bytes x = c.getb("x"); return k == 0 ? check_local(R, x) : k == 1 ? check_domain(R, x) : check_addr(R, x, (int) c.geti("mask")); },
@@ -182,3 +183,11 @@ int main(int argc, char **argv) {
         [](Run &R) { for (int v = 0; v < 9; v++) { KV[v] = new Core(VV[v]); if (!KV[v]->init(R.a.datadir)) return false; } return true; },
         [] { for (int v = 0; v < 9; v++) delete KV[v]; });
 }
+#else
+VF_FUZZ_TARGET("C17", [](Run &R) { for (int v = 0; v < 9; v++) { KV[v] = new Core(VV[v]); if (!KV[v]->init(R.a.datadir)) return false; } return true; },
+    [](Run &R, const uint8_t *d, size_t n) -> std::optional<Failure> {
+        if (n < 2) return std::nullopt;
+        int kind = d[n - 1] % 3; Bytes x = fuzz_bytes(d, n - 1); if (x.empty()) return std::nullopt;
+        R.sample("fuzz", show(x.substr(0, 80)), 4);
+        return kind == 0 ? check_local(R, x) : kind == 1 ? check_domain(R, x) : check_addr(R, x, KV[0]->default_mask()); })
+#endif
